@@ -811,7 +811,7 @@ def mon_C03(script, outs):
                 else:
                     X = TWO24 / (T * tr.fs) * (1 + 2.0 ** -22)
                     lip = (L_ATT if pst == 1 else L_DEC) * min(1.0, X / TWO24)
-                bound = lip + abs(tr.sus - last_tick[1]) + 4 * 2.0 ** -24
+                bound = lip + abs(tr.sus - last_tick[1]) + 8 * 2.0 ** -24
                 if abs(val - last_tick[0]) > bound:
                     fails.append((i, "output stepped by %r (from %r to %r) in phase %d; the slope bound for one tick is %r" % (abs(val - last_tick[0]), last_tick[0], val, pst, bound)))
                     break
